@@ -156,13 +156,19 @@ func (a *Action) Exec(bs map[string]interface{}) ExecResult {
 		case "set":
 			w[op.K] = CopyVal(op.V)
 		case "setfrom":
+			// as in a script: the two bindings now share one value
 			if v, ok := w[op.K2]; ok {
-				w[op.K] = CopyVal(v)
+				w[op.K] = v
 			}
 		case "nest":
 			// mutate a nested value in place: an object, or the objects inside an
 			// array (one level of arrays of arrays included)
 			NestInto(w[op.K], op.K2, op.V)
+		case "require":
+			// (guards) reject unless the binding has the given scalar value
+			if v, ok := w[op.K]; !ok || !scalarEq(v, op.V) {
+				return ExecResult{Outcome: "null", Emitted: out}
+			}
 		case "del":
 			delete(w, op.K)
 		case "clear":
@@ -425,39 +431,74 @@ func (s *Spec) Step(st State, pending interface{}) StepResult {
 		against = map[string]interface{}(bs)
 	}
 	for _, b := range n.Branches {
-		cand := bs
+		cands := []map[string]interface{}{bs}
 		if b.HasPat {
-			cand = Match(b.Pattern, against, bs)
-			if cand == nil {
+			cands = MatchAll(b.Pattern, against, bs)
+			if len(cands) == 0 {
 				continue
 			}
 		}
-		chosen := cand
-		if b.Guard != nil {
+		resolve := func(chosen map[string]interface{}) string {
+			target := b.Target
+			if strings.HasPrefix(target, "@") && len(chosen) > 0 {
+				if s, ok := chosen[target[1:]].(string); ok {
+					target = s
+				}
+			}
+			return target
+		}
+		if b.Guard == nil {
+			if len(cands) > 1 {
+				res.Kind = Error
+				res.Class = "too-many-candidates"
+				res.To = nil
+				return res
+			}
+			res.Kind = Specified
+			res.To = &State{resolve(cands[0]), cands[0]}
+			return res
+		}
+		// the guard is offered the candidates in an unspecified order; the first
+		// one it accepts decides
+		var accepted []map[string]interface{}
+		failed, emitted := 0, false
+		for _, cand := range cands {
 			g := b.Guard.Exec(cand)
 			switch g.Outcome {
 			case "ok":
-				chosen = g.Bs
+				accepted = append(accepted, g.Bs)
 				if len(g.Emitted) > 0 {
-					res.Class = "guard-emitted"
+					emitted = true
 				}
 			case "null":
-				continue
 			default:
+				failed++
+			}
+		}
+		if emitted {
+			res.Class = "guard-emitted"
+		}
+		if failed > 0 {
+			if len(cands) == 1 || failed == len(cands) {
 				res.Kind = Error
 				res.Class = "guard-error"
 				res.To = nil
 				return res
 			}
+			// whether the failing candidate is reached before an accepted one is not specified
+			return StepResult{Kind: Unspecified, Class: "several-candidates", Emitted: out, ActionFailed: res.ActionFailed, ActionCompleted: res.ActionCompleted}
 		}
-		target := b.Target
-		if strings.HasPrefix(target, "@") && len(chosen) > 0 {
-			if s, ok := chosen[target[1:]].(string); ok {
-				target = s
+		if len(accepted) == 0 {
+			continue
+		}
+		first := accepted[0]
+		for _, a := range accepted[1:] {
+			if Canon(a) != Canon(first) || resolve(a) != resolve(first) {
+				return StepResult{Kind: Unspecified, Class: "several-candidates", Emitted: out, ActionFailed: res.ActionFailed, ActionCompleted: res.ActionCompleted}
 			}
 		}
 		res.Kind = Specified
-		res.To = &State{target, chosen}
+		res.To = &State{resolve(first), first}
 		return res
 	}
 	if n.Action != nil {
@@ -492,5 +533,106 @@ func NestInto(x interface{}, k2 string, v interface{}) {
 				NestInto(e, k2, v)
 			}
 		}
+	}
+}
+
+// MatchAll is Match for patterns that may yield several candidates: besides the
+// fragment of Match, a pattern array may hold one variable next to scalar
+// constants; against a fact array of scalars it yields one candidate per fact
+// element not claimed by a constant.
+func MatchAll(pat, fact interface{}, bs map[string]interface{}) []map[string]interface{} {
+	w := make(map[string]interface{}, len(bs)+2)
+	for k, v := range bs {
+		w[k] = v
+	}
+	return matchAll(pat, fact, w)
+}
+
+func copyMap(m map[string]interface{}) map[string]interface{} {
+	c := make(map[string]interface{}, len(m)+1)
+	for k, v := range m {
+		c[k] = v
+	}
+	return c
+}
+
+func matchAll(pat, fact interface{}, bs map[string]interface{}) []map[string]interface{} {
+	switch p := pat.(type) {
+	case map[string]interface{}:
+		f, ok := fact.(map[string]interface{})
+		if !ok {
+			return nil
+		}
+		keys := make([]string, 0, len(p))
+		for k := range p {
+			keys = append(keys, k)
+		}
+		sort.Strings(keys)
+		cands := []map[string]interface{}{bs}
+		for _, k := range keys {
+			fv, have := f[k]
+			if !have {
+				if s, ok := p[k].(string); ok && strings.HasPrefix(s, "??") {
+					continue
+				}
+				return nil
+			}
+			var next []map[string]interface{}
+			for _, c := range cands {
+				next = append(next, matchAll(p[k], fv, copyMap(c))...)
+			}
+			cands = next
+			if len(cands) == 0 {
+				return nil
+			}
+		}
+		return cands
+	case []interface{}:
+		variable := ""
+		var consts []interface{}
+		for _, e := range p {
+			if s, ok := e.(string); ok && isVar(s) {
+				variable = s
+				continue
+			}
+			consts = append(consts, e)
+		}
+		if variable == "" {
+			if matchInto(pat, fact, bs) {
+				return []map[string]interface{}{bs}
+			}
+			return nil
+		}
+		f, ok := fact.([]interface{})
+		if !ok {
+			return nil
+		}
+		used := make([]bool, len(f))
+	next:
+		for _, pe := range consts {
+			for i, fe := range f {
+				if !used[i] && scalarEq(pe, fe) {
+					used[i] = true
+					continue next
+				}
+			}
+			return nil
+		}
+		var out []map[string]interface{}
+		for i, fe := range f {
+			if used[i] {
+				continue
+			}
+			c := copyMap(bs)
+			if matchInto(variable, fe, c) {
+				out = append(out, c)
+			}
+		}
+		return out
+	default:
+		if matchInto(pat, fact, bs) {
+			return []map[string]interface{}{bs}
+		}
+		return nil
 	}
 }
